@@ -324,3 +324,16 @@ Definition interpolate_batch (dbg : bool) (N : nat) (xs ys : list (list F)) : Re
     (repeat (repeat zero N) n).
 
 End Polynom.
+
+(* ------------------------------------------------------------------ mixed instantiations (B != E) *)
+(* eval::<B, E>(p: &[B], x: E): the accumulator lives in E, every coefficient goes through E::from *)
+Definition eval_mixed {B E : Type} (OE : FOps E) (from : B -> E) (p : list B) (x : E) : E :=
+  fold_left (fun acc coeff => fadd OE (fmul OE acc x) (from coeff)) (rev p) (fzero OE).
+
+Definition eval_many_mixed {B E : Type} (OE : FOps E) (from : B -> E) (p : list B) (xs : list E) : list E :=
+  map (fun x => eval_mixed OE from p x) xs.
+
+(* mul_acc::<F, E>(a: &mut [E], b: &[F], c: E): *a += c.mul_base(b) with the extension's dedicated mul_base *)
+Definition mul_acc_mixed {B E : Type} (OE : FOps E) (mul_base : E -> B -> E) (a : list E) (b : list B) (c : E)
+    : Result (list E) :=
+  if length a =? length b then Ok (zip_with (fun x y => fadd OE x (mul_base c y)) a b) else Panic.
